@@ -129,10 +129,14 @@ class PreemptionBoundedPolicy(Policy):
     def choose(self, kind, options, current=None):
         if kind != 'actor':
             return self.rng.randrange(len(options))
+        idle = getattr(self, 'stuttering', set())
+        busy = [o for o in options if o not in idle]
         if self.i < len(self.prefix) and self.prefix[self.i] in options:
             c = options.index(self.prefix[self.i])
-        elif current is not None and current in options:
+        elif current is not None and current in options and not (current in idle and busy):
             c = options.index(current)
+        elif busy:
+            c = options.index(busy[0])      # leaving a thread that only polls is not a preemption
         else:
             c = 0
         self.i += 1
@@ -260,6 +264,7 @@ class Sched(object):
             if self._only_stutter(opts):
                 self._finish('quiescent')
                 raise Poison()
+            self.policy.stuttering = set(t.name for t in self.threads if t.waiting_select and t.stutter >= 1)
             i = self.policy.choose('actor', opts, cur.name if (cur and not leaving and cur.enabled()) else None)
             name = opts[i]
             self.choices.append(name)
